@@ -224,13 +224,14 @@ def _run_shard(binary, lines, extra_env=None):
     return p
 
 
-def run_both(ops, exec_env=None, shards=None):
+def run_both(ops, exec_env=None, shards=None, exec_bin=None):
     """Run the op lines through the Lean driver and the real-code executor.
     Returns (model_answers, impl_answers, crashes) where a crashed executor shard yields
     None for the ops it did not answer and `crashes` lists (op_index, returncode)."""
     n = len(ops)
     if n == 0:
         return [], [], []
+    EXEC = exec_bin or globals()["EXEC"]
     k = shards or max(1, min(NCPU, n // 500 + 1))
     bounds = [(i * n // k, (i + 1) * n // k) for i in range(k)]
     procs = []
@@ -353,3 +354,104 @@ def run_property(prop, tier, seed, replay=None):
     if replay:
         return props.replay(prop, replay)
     return props.run(prop, spec, tier, seed, t0)
+
+
+# ----------------------------------------------------------------------------------
+# executor variants: forced CPU detection, emulated NEON / simd128, feature builds
+
+def _tree_hash():
+    h = hashlib.sha256()
+    roots = [os.path.join(REPO, "src"), os.path.join(HARNESS, "src"), os.path.join(ROOT, "tools/emulate")]
+    files = [os.path.join(REPO, "Cargo.toml"), os.path.join(HARNESS, "Cargo.toml")]
+    for r in roots:
+        for d, _, fs in os.walk(r):
+            for f in fs:
+                files.append(os.path.join(d, f))
+    for f in sorted(files):
+        try:
+            h.update(f.encode())
+            h.update(open(f, "rb").read())
+        except OSError:
+            pass
+    return h.hexdigest()[:16]
+
+
+def variant_exec(name):
+    """Build (or reuse, keyed by a hash of /repo's working tree and the harness) an executor
+    variant. Returns (binary_path or None, error_text)."""
+    if name in ("host", "noavx2", "nosse2"):
+        return EXEC, ""
+    key = "%s-%s" % (name, _tree_hash())
+    cache = os.path.join(WORK, "emu")
+    os.makedirs(cache, exist_ok=True)
+    binp = os.path.join(cache, key, "exec")
+    with Lock("variant-" + name):
+        if os.path.exists(binp):
+            return binp, ""
+        # drop stale variants of the same name
+        for d in os.listdir(cache):
+            if d.startswith(name + "-") and d != key:
+                shutil.rmtree(os.path.join(cache, d), ignore_errors=True)
+        scratch = "/tmp/memchr-verif-%s-%d" % (name, os.getpid())
+        try:
+            if name in ("neon", "simd128"):
+                rc, out = sh([sys.executable, os.path.join(ROOT, "tools/emulate/mkemu.py"), name, scratch])
+                if rc != 0:
+                    return None, out[-3000:]
+                hdir = os.path.join(scratch, "harness")
+                env = dict(ENV)
+            else:
+                # feature / target-feature variants of the native build
+                os.makedirs(scratch)
+                hdir = os.path.join(scratch, "harness")
+                shutil.copytree(HARNESS, hdir, ignore=shutil.ignore_patterns("target"))
+                ct = os.path.join(hdir, "Cargo.toml")
+                t = open(ct).read()
+                cfgp = os.path.join(hdir, ".cargo/config.toml")
+                c = open(cfgp).read()
+                if name == "alloconly":
+                    t = t.replace('memchr = { path = "/repo" }', 'memchr = { path = "/repo", default-features = false, features = ["alloc"] }')
+                elif name == "avx2ct":
+                    c = c.replace('rustflags = ["--cfg", "memchr_verif"]', 'rustflags = ["--cfg", "memchr_verif", "-C", "target-feature=+avx2"]')
+                else:
+                    return None, "unknown variant " + name
+                open(ct, "w").write(t)
+                open(cfgp, "w").write(c)
+                env = dict(ENV)
+            env["CARGO_TARGET_DIR"] = os.path.join(scratch, "target")
+            rc, out = sh(["cargo", "build", "--release", "--offline"], cwd=hdir, env=env, timeout=3600)
+            if rc != 0:
+                return None, out[-4000:]
+            os.makedirs(os.path.dirname(binp), exist_ok=True)
+            shutil.copy(os.path.join(scratch, "target/release/memchr-verif-exec"), binp)
+            return binp, ""
+        finally:
+            shutil.rmtree(scratch, ignore_errors=True)
+
+
+VARIANT_ENV = {"noavx2": {"MEMCHR_VERIF_FORCE": "noavx2"}, "nosse2": {"MEMCHR_VERIF_FORCE": "nosse2"}}
+
+
+def run_grouped(ops_with_meta):
+    """ops_with_meta: list of (line, meta); meta['cfg'] selects the executor variant.
+    Returns (model, impl, crashes, variant_errors)."""
+    n = len(ops_with_meta)
+    model = [None] * n
+    impl = [None] * n
+    crashes = []
+    errors = []
+    groups = {}
+    for i, (line, meta) in enumerate(ops_with_meta):
+        groups.setdefault(meta.get("cfg", "host"), []).append(i)
+    for cfg, idxs in groups.items():
+        binp, err = variant_exec(cfg)
+        if binp is None:
+            errors.append("executor variant %s failed to build: %s" % (cfg, err))
+            continue
+        lines = [ops_with_meta[i][0] for i in idxs]
+        m, im, cr = run_both(lines, VARIANT_ENV.get(cfg), exec_bin=binp)
+        for j, i in enumerate(idxs):
+            model[i] = m[j]
+            impl[i] = im[j]
+        crashes.extend((idxs[j], rc) for j, rc in cr)
+    return model, impl, crashes, errors
